@@ -31,7 +31,7 @@ COPY_DOC = {"traverse", "get_row", "get_cell", "traverse_columns", "get_columns"
             "Row.get_cell"}
 GETTERS = ["get_cell", "get_cell-keep", "get_cell-noclone", "get_row", "get_cells", "get_cells-flat", "get_rows", "traverse",
            "rows", "cells", "get_column", "get_columns", "traverse_columns", "columns", "get_column_cells", "Row.get_cell",
-           "Row.traverse", "Row.traverse-range", "Row.cells", "Row.get_cells", "get_column_cells-filter", "get_cells-filter", "get_rows-filter", "traverse-lazy", "traverse-lazy", "traverse_columns-lazy", "Row.traverse-lazy"]
+           "Row.traverse", "Row.traverse-range", "Row.cells", "Row.get_cells", "get_column_cells-filter", "get_cells-filter", "get_rows-filter", "traverse-lazy", "traverse-lazy", "traverse_columns-lazy", "Row.traverse-lazy", "get_values-lines", "get_values-lines", "iter_values-lazy"]
 MUTS = ["set_value", "clear", "style", "repeated", "append", "text"]
 FILTERS = [{"content": "^$"}, {"content": ".*"}, {"content": "a"}, {"content": "1"}, {"content": "x*"}, {"cell_type": "all"}, {"cell_type": "float"},
            {"cell_type": "string"}, {"style": "ce1"}, {"content": "", "cell_type": "all"}, {"content": "^$", "style": None}]
@@ -157,6 +157,50 @@ def run_case(case, ctx):
         elif getter == "traverse":
             res = list(t.traverse(start=y, end=tt)) if dx % 2 else list(t.traverse())
             expect_rows = list(range(y, min(tt + 1, h))) if dx % 2 else list(range(h))
+        elif getter in ("get_values-lines", "iter_values-lazy"):
+            # value-level reads: a list of lines; shape and content per the grid, and each line is the caller's own list
+            import copy
+
+            use_area = bool(dy % 2)
+            x0, y0, x1, y1 = (x, y, z, tt) if use_area else (0, 0, max(w - 1, 0), max(h - 1, 0))
+            kw = {"coord": area} if use_area else {}
+            if getter == "get_values-lines":
+                lines = t.get_values(**kw)
+                snap = copy.deepcopy(lines)
+                k = pick % len(lines) if lines else 0
+                if lines:
+                    lines[k].append("mut")
+                    if lines[k]:
+                        lines[k][0] = "mut0"
+                    ctx.check(all(a == b for i, (a, b) in enumerate(zip(lines, snap)) if i != k), ("C08", getter, "aliases-other-result"),
+                              f"editing line {k} of get_values({kw}) in place changed another returned line: {lines!r} (was {snap!r})", case)
+            else:
+                snap = copy.deepcopy(list(t.iter_values(**kw)))
+                k = pick % len(snap) if snap else 0
+                lines = []
+                for i, line in enumerate(t.iter_values(**kw)):
+                    if i == k:
+                        line.append("mut")
+                        if line:
+                            line[0] = "mut0"
+                    lines.append(line)
+                ctx.check(len(lines) == len(snap) and all(a == b for i, (a, b) in enumerate(zip(lines, snap)) if i != k),
+                          ("C08", getter, "aliases-other-result"),
+                          f"editing line {k} while iterating iter_values({kw}) changed a later line: {lines!r} (first read {snap!r})", case)
+            ctx.check(ser(t) == before, ("C08", getter, "read-changed-table"), "table changed by a value-level read / by editing a returned line", case)
+            # shape and content of the first (untouched) read
+            rows_want = list(range(y0, min(y1 + 1, h))) if use_area else list(range(h))
+            ctx.check(len(snap) == len(rows_want), ("C08", getter, "count"), f"{len(snap)} lines, expected rows {rows_want} ({kw})", case)
+            wid = max(0, min(x1, w - 1) - x0 + 1) if use_area else w  # the area is clipped to the table
+            for line, yy in zip(snap, rows_want):
+                mrow = m.get_row(yy)
+                want = [read_value(mrow[xx][0]) if xx < len(mrow) else None for xx in range(x0, x0 + wid)]
+                ok = len(line) == len(want) and all(same_value(a, b) for a, b in zip(line, want))
+                ctx.check(ok, ("C08", getter, "content"), f"line of row {yy} ({kw}): {line!r}, grid (padded with None to the width) {want!r}", case)
+            if snap:
+                ctx.nontrivial((spec, pre, getter, x, y, dx, dy, form, pick))
+            ctx.count("value-level-lines")
+            return
         elif getter in ("traverse-lazy", "traverse_columns-lazy"):
             # the generator consumed one item at a time, an item mutated before the next one is requested
             rowwise = getter == "traverse-lazy"
